@@ -58,7 +58,7 @@ def main(argv):
         print(ln)
     if err:
         print("ANALYSIS-ERROR property=%s %s" % (pid, err))
-        return 2
+        return code
     nd = sum(1 for o in ctx.obligations if o["verdict"] == "discharged")
     print("%s %s: %d obligations, %d discharged, %d finding(s) [%d known], %d traces, %.2fs" % (
         pid, tier, len(ctx.obligations), nd, len(ctx.findings),
